@@ -25,7 +25,7 @@ def sh(cmd, cwd=None, env=None, timeout=7200):
 def prep_slot(k):
     d = f'{ROOT}/slot{k}'
     os.makedirs(d, exist_ok=True)
-    sh(f"rsync -a --delete --exclude target --exclude .git --exclude work --exclude replays --exclude evidence --exclude seeded --exclude 'mutants/results*' /verif/ {d}/verif/")
+    sh(f"rsync -a --delete --exclude 'target*' --exclude .git --exclude work --exclude replays --exclude evidence --exclude seeded --exclude 'mutants/results*' /verif/ {d}/verif/")
     sh(f"grep -rl '\"/repo\"' {d}/verif/harness {d}/verif/harness-serde --include=Cargo.toml | xargs sed -i 's#\"/repo\"#\"{d}/repo\"#'")
     return d
 
